@@ -50,6 +50,15 @@ struct SModel { std::multiset<long> s; bool multi;
 template <class C> C* make_container(size_t buckets, std::true_type) { return new C(); }
 template <class C> C* make_container(size_t buckets, std::false_type) { return buckets ? new C(buckets) : new C(); }
 struct Trav { int thread; unsigned long t0, t1; std::vector<int> keys; };
+// Ordered containers: the split constructor of a range takes my_begin->next(my_level - 1) as the new border without looking whether that
+// node lies inside the range.  Checked here (through the private members, the harness is built with access to them) BEFORE the split is
+// asked for, so that the situation is reported by its name instead of by the crash it leads to.
+template <class R> auto split_point_inside(R& r, int) -> decltype(r.my_level, bool()) {
+    auto* b = r.my_begin.my_node_ptr; auto* e = r.my_end.my_node_ptr; if (!b || !r.my_level) return true; auto* n = b->next(r.my_level - 1);
+    if (n == nullptr) return e == nullptr;   /* null is the end of the whole list: a border only for a range that ends there (is_divisible() is false then) */
+    for (auto* w = b->next(0); w != e && w != nullptr; w = w->next(0)) if (w == n) return true;
+    return n == e; }
+template <class R> bool split_point_inside(R&, long) { return true; }
 template <class C, bool MULTI, bool ORDERED> void run() {
     typedef std::integral_constant<bool, IsMap<C>::value> ismap;
     // -p buckets=N (unordered kinds): the container is constructed with an explicit initial bucket count (1, 2, 4: below the default of 8)
@@ -83,7 +92,8 @@ template <class C, bool MULTI, bool ORDERED> void run() {
             case 'C': id = log.begin(K_COUNT, k); log.end(id, (long)c.count(k)); break;
             case 'S': { Trav tr; tr.thread = vf_self(); tr.t0 = vf_stamp(); auto r = c.range(); typedef decltype(r) RT;   /* traversal through range(): split in two rounds where divisible, then the pieces are walked one after the other with scheduling points in between */
                 std::list<RT> pieces; pieces.push_back(r);
-                for (int round = 0; round < 2; round++) { for (auto pi = pieces.begin(); pi != pieces.end(); ++pi) if (pi->is_divisible()) { auto nx = std::next(pi); pi = pieces.emplace(nx, *pi, tbb::split()); } vf_point(); }
+                for (int round = 0; round < (int)vf_param_int("rounds", 2); round++) { for (auto pi = pieces.begin(); pi != pieces.end(); ++pi) if (pi->is_divisible()) { if (!split_point_inside(*pi, 0)) vf_fail("range() of an ordered container is divisible but its split point (the successor of its first node on the level of that node) lies outside the range: a node as tall as the first node was inserted into the piece after it had been split off");
+                    auto nx = std::next(pi); pi = pieces.emplace(nx, *pi, tbb::split()); } vf_point(); }
                 auto b0 = pieces.front().begin(); auto e0 = pieces.front().end(); vf_point();   /* the first piece fixes its bounds before the others look at theirs */
                 bool first = true; for (auto& pc : pieces) { auto bb = first ? b0 : pc.begin(); auto ee = first ? e0 : pc.end(); first = false; size_t guard = 0; for (auto it = bb; it != ee; ++it) { tr.keys.push_back(keyof(it, ismap())); if (++guard > 200) vf_fail("a piece of a split range() does not end"); } vf_point(); }
                 tr.t1 = vf_stamp(); travs.push_back(tr); } break;
